@@ -80,7 +80,23 @@ def run_driver(mode, path, timeout=1200, cap=3000):
 
 
 def strip_api(lines):
-    return [l for l in lines if not l.startswith("API ")]
+    """Drop the Path API trace and canonicalise what has no defined order:
+    destructors of thread-locals / lazy statics run in HashMap order."""
+    out = []
+    run = []
+    for l in lines:
+        if l.startswith("API "):
+            continue
+        if l.startswith("D tls ") or l.startswith("D lazy "):
+            run.append(l)
+            continue
+        if run:
+            out += sorted(run)
+            run = []
+        out.append(l)
+    if run:
+        out += sorted(run)
+    return out
 
 
 def compare(progfile, workdir, timeout=600):
@@ -105,7 +121,7 @@ def compare(progfile, workdir, timeout=600):
         if hl and ("badprog" in hl[-1] or hl[-1].endswith(" capped")):
             res["badprog"] += 1
             continue
-        ml = mprogs.get(i, {"lines": []})["lines"]
+        ml = strip_api(mprogs.get(i, {"lines": []})["lines"])
         res["programs"] += 1
         res["iterations"] += sum(1 for l in hl if l.startswith("BEGIN "))
         if hl:
